@@ -181,6 +181,17 @@ Lemma gen_ServeBackName_bracket : forall post,
   end.
 Proof. intros post. rewrite gen_register_unmap_adjacent. apply adjacent_bracket_ok. Qed.
 
+(** ** The disconnect notification is installed whenever OnDisconnect is configured
+    (Sni/RegistryCallbacks.v)
+
+    The one call of [onDisconnect] in ServeBackName is deferred, and the only
+    condition between the function's top level and the call is
+    [s.onDisconnect != nil] -- in particular the defer is not nested in the
+    OnConnect condition. *)
+Lemma gen_disconnect_defer_guard_ok :
+  gen_disconnect_defer_guard = [("deferred", ["s.onDisconnect != nil"])].
+Proof. vm_compute. reflexivity. Qed.
+
 (** ** One key for every access of the registry
 
     Every index expression on the endpoints map and every key argument of a
